@@ -27,7 +27,7 @@ omit hgood in
 theorem battrs_step_list {outer inner : Ctx} {omc imc : MCtx} (hio : InvR (fin := fin) recs outer omc)
     (hii : InvR (fin := fin) recs inner imc) (hof : outer.forInItem = false) (hif : inner.forInItem = false)
     (p : SPath) (kind : String) (hasInit forIn : Bool)
-    (hin : isFunctionKind kind = true → inner.varKind = .var ∧ inner.varScope = p)
+    (hin : InnerOK kind p inner)
     (a : String) (xs : List Val) (rest : List (String × Val))
     (h : factsAttrs fin recs omc imc p kind hasInit forIn ((a, .list xs) :: rest) = true)
     (ihList : ∀ (ctx : Ctx) (mc : MCtx), InvR (fin := fin) recs ctx mc → factsList fin recs mc ctx.forInItem p a 0 xs = true →
@@ -38,7 +38,7 @@ theorem battrs_step_list {outer inner : Ctx} {omc imc : MCtx} (hio : InvR (fin :
   rw [factsAttrs.eq_2, Bool.and_eq_true] at h
   rw [resolveAttrs_cons_list]
   refine allBOK_append recs ?_ (ihRest h.2)
-  refine roleOut_bok hio hii p a (.list xs) _ _ _ _ _ _ _ (fun hr => hin (roleOf_params_func hr)) h.1 ?_ ?_ ?_
+  refine roleOut_bok hio hii p a (.list xs) _ _ _ _ _ _ _ (fun hr => hin.1 (roleOf_params_func hr)) (fun hr => hin.2 (roleOf_catchParam hr)) h.1 ?_ ?_ ?_
   · intro hc; exact ihList outer omc hio (by rw [hof]; exact hc)
   · intro hc; exact ihList inner imc hii (by rw [hif]; exact hc)
   · intro hc; exact ihList outer omc hio (by rw [hof]; exact hc)
@@ -47,7 +47,7 @@ omit hgood in
 theorem battrs_step_nonlist {outer inner : Ctx} {omc imc : MCtx} (hio : InvR (fin := fin) recs outer omc)
     (hii : InvR (fin := fin) recs inner imc) (hof : outer.forInItem = false) (hif : inner.forInItem = false)
     (p : SPath) (kind : String) (hasInit forIn : Bool)
-    (hin : isFunctionKind kind = true → inner.varKind = .var ∧ inner.varScope = p)
+    (hin : InnerOK kind p inner)
     (a : String) (v : Val) (hnl : NotList v) (rest : List (String × Val))
     (h : factsAttrs fin recs omc imc p kind hasInit forIn ((a, v) :: rest) = true)
     (ihVal : ∀ (ctx : Ctx) (mc : MCtx), InvR (fin := fin) recs ctx mc →
@@ -58,7 +58,7 @@ theorem battrs_step_nonlist {outer inner : Ctx} {omc imc : MCtx} (hio : InvR (fi
   rw [factsAttrs.eq_3 _ _ _ _ _ _ _ _ _ _ _ hnl, Bool.and_eq_true] at h
   rw [resolveAttrs_cons_nonlist _ _ _ _ _ _ _ _ hnl]
   refine allBOK_append recs ?_ (ihRest h.2)
-  refine roleOut_bok hio hii p a v _ _ _ _ _ _ _ (fun hr => hin (roleOf_params_func hr)) h.1 ?_ ?_ ?_
+  refine roleOut_bok hio hii p a v _ _ _ _ _ _ _ (fun hr => hin.1 (roleOf_params_func hr)) (fun hr => hin.2 (roleOf_catchParam hr)) h.1 ?_ ?_ ?_
   · intro hc; exact ihVal { outer with forInItem := true } omc (invR_flag hio true) hc
   · intro hc; exact ihVal inner imc hii (by rw [hif]; exact hc)
   · intro hc; exact ihVal outer omc hio (by rw [hof]; exact hc)
@@ -89,15 +89,15 @@ mutual
           subst hb
           exact lookupEnv_bok hi.alr n
       · simp only [hid, Bool.false_eq_true, if_false, Bool.and_eq_true] at h ⊢
-        obtain ⟨⟨hk1, hk2⟩, h3⟩ := h
+        obtain ⟨hk2, h3⟩ := h
         cases he : enterFacts fin recs mc p k as with
         | none => rw [he] at h3; cases h3
         | some inner =>
           rw [he] at h3
           simp only at h3
           have hi0 : InvR (fin := fin) recs { ctx with forInItem := false } mc := invR_flag hi false
-          obtain ⟨_, _, hvar⟩ := enter_of_facts recs hgood hi0.inv p k as hk1 hk2 inner he
-          have hinvR := enter_invR hgood hi0 p k as hk1 hk2 inner he
+          obtain ⟨_, _, hvar⟩ := enter_of_facts recs hgood hi0.inv p k as hk2 inner he
+          have hinvR := enter_invR hgood hi0 p k as hk2 inner he
           have hif : (enter { ctx with forInItem := false } p k as).forInItem = false := by
             rw [enter_unfold]
             split
@@ -118,7 +118,7 @@ mutual
       simp only [resolveList]
       exact allBOK_append recs (bokVal ctx mc _ v hi h.1) (bokList ctx mc p a (i + 1) rest hi h.2)
   theorem bokAttrs : ∀ (outer inner : Ctx) (omc imc : MCtx) (p : SPath) (kind : String)
-      (hasInit forIn : Bool) (_ : isFunctionKind kind = true → inner.varKind = .var ∧ inner.varScope = p)
+      (hasInit forIn : Bool) (_ : InnerOK kind p inner)
       (as : List (String × Val)), InvR (fin := fin) recs outer omc → InvR (fin := fin) recs inner imc →
       outer.forInItem = false → inner.forInItem = false → factsAttrs fin recs omc imc p kind hasInit forIn as = true →
       AllBOK fin recs (resolveAttrs outer inner p kind hasInit forIn as)
@@ -180,7 +180,7 @@ theorem program_bok (fin : Final) (recs : List Rec) (hgood : ∀ R ∈ recs, Cha
           have e : tauN (tauFin fin) .global [] n = applyTable (rootTable fin) n := rfl
           rw [e, htab]
         have hinvR : InvR (fin := fin) recs (Spec.Scope.globalCtx program) { sid := R.id, chain := [A] } := by
-          refine ⟨⟨hal, ⟨_, _, rfl, rfl, rfl⟩, hch⟩, ?_⟩
+          refine ⟨⟨hal, rfl, hch⟩, ?_⟩
           exact .root _ A hal ⟨R, rest, hrecs, hc⟩
         rw [← hrecs] at hfacts
         have hall := bokVal recs hgood (Spec.Scope.globalCtx program) _ [] program hinvR hfacts
